@@ -42,6 +42,28 @@ def run(ctx, factor):
                          "last": got[1][-3:] if got[0] == "ok" else None}, model_agrees_with_spec=None)
         if first != ("ok", occ[:1]):
             rep.violate("first-match-is-not-the-head-of-the-list", case, occ[:1], first, model_agrees_with_spec=None)
+    # the yes/no way of asking reports its matches too (log lines `Matched address`, what the command line shows): in
+    # all-matches mode they are the same complete scan, in first-match mode its head
+    for _ in range(ctx.budget(12, 400) * factor):
+        doc = gen_rules.rule(g, {"ops"}, nitems=g.int(1, 2), depth=1)
+        r = [(m, o) for _, m, o in gen_rules.realise(g, doc, pad=(0, 0))]
+        seq = []
+        for _k in range(g.int(2, 4)):
+            seq += r + [(m, o) for _, m, o in g.listing(g.int(0, 2))]
+        insts, addr = [], 0x2000
+        for m, o in seq:
+            insts.append(("%x" % addr, m, o))
+            addr += g.int(1, 6)
+        import gen
+        text = gen.render_listing(insts, g)
+        ao = g.chance(0.6)
+        lst = impl.run_op(ctx.scratch, doc, text, mode="all", ret="list", addr_only=ao)
+        (b, rep_all), (b1, rep_first) = impl.run_op_logged(ctx.scratch, doc, text, "all", ao), impl.run_op_logged(ctx.scratch, doc, text, "first", ao)
+        case = {"rule": doc, "listing": text, "asked": "yes/no (matches reported through the logger)", "address_only": ao}
+        rep.case(case, lst[0] == "ok" and len(lst[1]) > 1, tags=["reported-through-the-logger"])
+        if lst[0] == "ok" and b[0] == "ok" and (rep_all != lst[1] or rep_first != lst[1][:1]):
+            rep.violate("reported-matches-differ-from-the-scan", case, {"all": lst[1], "first": lst[1][:1]},
+                        {"reported_in_all_matches_mode": rep_all, "reported_in_first_match_mode": rep_first}, model_agrees_with_spec=None)
     n = ctx.budget(300, 8000) * factor
     for _ in range(n):
         doc = gen_rules.rule(g, FEATS, nitems=g.int(1, 3), depth=1)
